@@ -221,7 +221,15 @@ impl Pager {
             Err(std::fs::TryLockError::Error(e)) => return Err(Error::Io(e)),
         }
 
-        if !existed || file.metadata()?.len() == 0 {
+        // A file that is shorter than meta + bitmap, or whose meta page was never written (all-zero
+        // magic), is the residue of a creation that was cut short by a crash: no page of it was
+        // ever handed out, so it is initialised again instead of being rejected forever.
+        let fresh = !existed || file.metadata()?.len() < (PAGE_SIZE * 2) as u64 || {
+            let mut magic = [0u8; 16];
+            read_exact_at(&file, 0, &mut magic).map_err(Error::Io)?;
+            magic == [0u8; 16]
+        };
+        if fresh {
             let meta = Meta::new();
             let bitmap = Bitmap::new();
             #[cfg(nervusdb_verif)]
